@@ -242,7 +242,7 @@ def gen_obj(rng, feats, spec_feats):
         elif c < 0.85 and info.get("path"):
             o[f] = rng.choice(PATH_STATES)
         elif c < 0.92:
-            o[f] = {"__special__": rng.choice(["tuple", "set", "object", "nonstr-keys", "namespace", "bytes", "nan", "cyclic"])}
+            o[f] = {"__special__": rng.choice(["tuple", "set", "object", "nonstr-keys", "namespace", "bytes", "nan"])}
         else:
             o[f] = rng.choice(BADV)
     if "inner" in spec_feats and rng.random() < 0.25:
@@ -429,7 +429,6 @@ def execute(sc, ctx):
         ctx.notes["build"] = ob.brief()
         ctx.record("build", ob.brief())
         return
-    p = ob.value
     eoe = sc["parser"]["opts"]["exit_on_error"]
     for k in sc.get("content_faults", []):
         sim.probe("cfg-content-fault")
@@ -440,6 +439,9 @@ def execute(sc, ctx):
         env0 = dict(os.environ)
         if op.get("osenv"):
             os.environ.update(op["osenv"])
+        # a fresh parser per operation: this property quantifies over inputs, what an earlier call leaves
+        # behind on a parser is C09's business
+        p = zoo.build(sc["parser"])
         sim.begin_op(i, kind)
         nf = len(sim.fired)
         o = run_op(lambda: do_op(p, op), stdin=op.get("stdin"))
@@ -474,7 +476,7 @@ def execute(sc, ctx):
             ok = True
         elif o.kind == "AE":
             ok = not eoe or "JSONARGPARSE_DEBUG" in json.dumps(op)
-            why = "ArgumentError raised although exit_on_error=True"
+            why = "ArgumentError raised although exit_on_error=True: " + o.text[:200]
             sim.probe("rejected-AE")
             ctx.nontrivial = True
         elif o.kind == "exit":
